@@ -1,114 +1,15 @@
 import ArrowModel.C09.Lemmas
 import ArrowModel.Generated.C01
 /-
-C01 extension of the shared layout library: the **view layouts** `Utf8View` / `BinaryView`
-(not in C09's `DType`).  Written from the Arrow columnar format ("Variable-size Binary View Layout"):
+C01 source ties and view-layout facts.
 
-* buffer 0 holds one 16-byte view per slot; the other buffers are data buffers;
-* a view starts with the value length as a little-endian `u32`;
-* length ≤ 12 (`MAX_INLINE_VIEW_LEN`, regenerated from the source): the value bytes follow inline and
-  the remaining bytes up to 16 are zero padding;
-* length > 12: 4 prefix bytes, then the data buffer index and the offset (both `u32`); the index
-  addresses an existing data buffer, `offset + length` is inside it, and the prefix equals the first four
-  value bytes;
-* `Utf8View`: the value bytes are well-formed UTF-8;
-* the validity bitmap rule is the one of every other layout (`NullsOk`).
-
-As for `Utf8` the per-slot rule is required of every slot, valid or null (the Rust accessor `value(i)`
-does not consult the bitmap; `validate_full` checks every view as well).
-
-The array is carried in a `Physical.ArrayData` whose `type` field is ignored (the C09 dump parser has no
-view token; the driver parses the dump with the token replaced).
+The view layouts `Utf8View` / `BinaryView` are part of the shared library now (`DType.view`, C09/Physical.lean:
+`viewSlotOk` — view length, zero padding of inline views, buffer index and offset in bounds, prefix, UTF-8).
+This file adds (1) the regenerated source constants / expression shapes the C01 models and the view rule
+rely on, as one obligation, and (2) the "in-bounds view references" consequence of well-formedness.
 -/
 namespace ArrowModel.PhysicalExt
 open ArrowModel.Physical
-
-/-- inline limit, tied to `arrow-data/src/byte_view.rs` -/
-def maxInline : Nat := ArrowModel.Generated.C01.MAX_INLINE_VIEW_LEN
-
-/-- the view at physical position `p` is well-formed w.r.t. the data buffers `bufs` -/
-def viewOk (utf8 : Bool) (views : List Nat) (bufs : List (List Nat)) (p : Nat) : Bool :=
-  match readLE views (16 * p) 4, sliceChecked views (16 * p) (16 * p + 16) with
-  | some len, some bytes =>
-    if len ≤ maxInline then
-      -- inline: value bytes then zero padding
-      ((bytes.drop (4 + len)).all (· % 256 == 0)) && (!utf8 || utf8Valid ((bytes.drop 4).take len))
-    else
-      match readLE views (16 * p + 8) 4, readLE views (16 * p + 12) 4 with
-      | some bi, some off =>
-        match bufs[bi]? with
-        | some data =>
-          match sliceChecked data off (off + len) with
-          | some v => (v.take 4 == (bytes.drop 4).take 4) && (!utf8 || utf8Valid v)
-          | none => false
-        | none => false
-      | _, _ => false
-  | _, _ => false
-
-/-- **specification predicate for a view array** -/
-def ViewWF (utf8 : Bool) (d : ArrayData) : Prop :=
-  NullsOk d ∧ d.children = [] ∧ ∃ views bufs, d.buffers = views :: bufs ∧
-    (d.offset + d.len) * 16 ≤ views.length ∧
-    ∀ i, i < d.len → viewOk utf8 views bufs (d.offset + i) = true
-
-/-- executable form -/
-def viewWFB (utf8 : Bool) (d : ArrayData) : Bool :=
-  nullsOkB d && d.children.isEmpty &&
-  match d.buffers with
-  | views :: bufs =>
-    decide ((d.offset + d.len) * 16 ≤ views.length) &&
-    allBelow d.len (fun i => viewOk utf8 views bufs (d.offset + i))
-  | [] => false
-
-/-- **the executable view validator decides the specification predicate** -/
-theorem viewWFB_iff (utf8 : Bool) (d : ArrayData) : viewWFB utf8 d = true ↔ ViewWF utf8 d := by
-  unfold viewWFB ViewWF
-  rw [Bool.and_eq_true, Bool.and_eq_true, nullsOkB_iff, list_isEmpty_iff, and_assoc]
-  apply and_congr Iff.rfl
-  apply and_congr Iff.rfl
-  cases hb : d.buffers with
-  | nil => simp
-  | cons views bufs =>
-    simp only [Bool.and_eq_true, decide_eq_true_eq, allBelow_iff, List.cons.injEq]
-    constructor
-    · rintro ⟨h1, h2⟩; exact ⟨views, bufs, ⟨rfl, rfl⟩, h1, h2⟩
-    · rintro ⟨_, _, ⟨rfl, rfl⟩, h1, h2⟩; exact ⟨h1, h2⟩
-
-/-- a well-formed long view addresses an existing data buffer and stays inside it
-(the "in-bounds view references" clause of the property, for the accessor that follows the view) -/
-theorem viewOk_in_bounds (utf8 : Bool) (views : List Nat) (bufs : List (List Nat)) (p len : Nat)
-    (h : viewOk utf8 views bufs p = true) (hl : readLE views (16 * p) 4 = some len) (hlong : maxInline < len) :
-    ∃ bi off data, readLE views (16 * p + 8) 4 = some bi ∧ readLE views (16 * p + 12) 4 = some off ∧
-      bufs[bi]? = some data ∧ off + len ≤ data.length := by
-  unfold viewOk at h
-  rw [hl] at h
-  cases hs : sliceChecked views (16 * p) (16 * p + 16) with
-  | none => rw [hs] at h; simp at h
-  | some bytes =>
-    rw [hs] at h
-    simp only at h
-    rw [if_neg (by omega)] at h
-    cases hbi : readLE views (16 * p + 8) 4 with
-    | none => rw [hbi] at h; simp at h
-    | some bi =>
-      cases hoff : readLE views (16 * p + 12) 4 with
-      | none => rw [hbi, hoff] at h; simp at h
-      | some off =>
-        rw [hbi, hoff] at h
-        simp only at h
-        cases hd : bufs[bi]? with
-        | none => rw [hd] at h; simp at h
-        | some data =>
-          rw [hd] at h
-          simp only at h
-          cases hv : sliceChecked data off (off + len) with
-          | none => rw [hv] at h; simp at h
-          | some v =>
-            refine ⟨bi, off, data, rfl, rfl, hd, ?_⟩
-            unfold sliceChecked at hv
-            split at hv
-            · omega
-            · cases hv
 
 /-- the source constants / expression shapes this check relies on are the ones the models were written
 against (regenerated from /repo on every run by `tools/items/C01.py`; an edit makes this fail) -/
@@ -126,10 +27,22 @@ theorem source_ties_intact :
     ArrowModel.Generated.C01.APPEND_ARRAY_VALUES_FROM_lost = false ∧ ArrowModel.Generated.C01.APPEND_ARRAY_VALUES_FROM = 0 := by
   decide
 
-example : viewWFB true ⟨.null, 2, 0, none,
-    [[1,0,0,0, 0x61,0,0,0, 0,0,0,0, 0,0,0,0,   13,0,0,0, 0x61,0x62,0x63,0x64, 0,0,0,0, 1,0,0,0],
-     [0x7A, 0x61,0x62,0x63,0x64,0x65,0x66,0x67,0x68,0x69,0x6A,0x6B,0x6C,0x6D]], []⟩ = true := by decide
--- non-zero padding in an inline view is rejected
-example : viewWFB true ⟨.null, 1, 0, none, [[1,0,0,0, 0x61,0,0,0, 2,0,0,0, 0,0,0,0]], []⟩ = false := by decide
+
+/-- the inline limit the shared view rule uses is the source's `MAX_INLINE_VIEW_LEN` -/
+theorem viewSlotOk_uses_source_limit :
+    viewSlotOk = viewSlotOkN ArrowModel.Generated.C01.MAX_INLINE_VIEW_LEN := rfl
+
+/-- a well-formed view array: every slot's view passes the view rule (restated for the C01 property text:
+"in-bounds view references") -/
+theorem wellFormed_view_slots (d : ArrayData) (u : Bool) (h : WellFormed d) (ht : d.type = .view u) :
+    ∃ views datas, d.buffers = views :: datas ∧ (d.offset + d.len) * 16 ≤ views.length ∧
+      ∀ i, i < d.len → viewSlotOk views datas u (d.offset + i) = true := by
+  have hl : LocalWF d := by
+    cases d with
+    | mk t l o n bs cs => unfold WellFormed at h; exact h.1
+  have h2 := hl.2
+  rw [ht] at h2
+  simp only at h2
+  exact h2.2
 
 end ArrowModel.PhysicalExt
